@@ -42,6 +42,22 @@ Theorem C09_supercell_forward_full_tensor : forall (K : Fld) (sc : scene K) (mx 
 Proof. exact forward_full_tiles_n. Qed.
 Print Assumptions C09_supercell_forward_full_tensor.
 
+(* ... and for the conductive fully anisotropic tiers (forward_lossy: per-cell 3x3 update matrices from the tensor and the conductivity
+   tensor; the matrices of the tiled material are the tiled matrices).  A tier given as None is the iso / diagonal tier. *)
+Theorem C09_supercell_forward_lossy_tensor : forall (K : Fld) (sc : scene K) (mx my mz : nat),
+  (0 < nx K sc)%nat -> (0 < ny K sc)%nat -> (0 < nz K sc)%nat ->
+  (mx = 1%nat \/ cmul (lox K sc) (hix K sc) = c1) ->
+  (my = 1%nat \/ cmul (loy K sc) (hiy K sc) = c1) ->
+  (mz = 1%nat \/ cmul (loz K sc) (hiz K sc) = c1) ->
+  (mx = 1%nat \/ wx K sc (nx K sc - 1)%nat = wx K sc O) ->
+  (my = 1%nat \/ wy K sc (ny K sc - 1)%nat = wy K sc O) ->
+  (mz = 1%nat \/ wz K sc (nz K sc - 1)%nat = wz K sc O) ->
+  pmls K sc = [] ->
+  forall (e m : option (T9 K * T9 K)) n S s, tiles K sc mx my mz S s ->
+    tiles K sc mx my mz (iterTL K (Tscene K sc mx my mz) (TTp K sc e) (TTp K sc m) n S) (iterTL K sc e m n s).
+Proof. exact forward_lossy_tiles_n. Qed.
+Print Assumptions C09_supercell_forward_lossy_tensor.
+
 (* the two 1-D ingredients (kept as separate statements: they are the only non-local part of the step) *)
 Theorem C09_forward_read_tiles : forall (K : Fld) (N m : nat) (phi : C K) (f : nat -> C K), (0 < N)%nat ->
   forall q r, (q < m)%nat -> (r < N)%nat ->
